@@ -267,3 +267,9 @@ impl From<Window> for isize {
         w.0 as isize
     }
 }
+
+#[cfg(feature = "verif")]
+#[allow(missing_docs, dead_code, unused_imports)]
+pub(crate) mod verif_h {
+    include!(concat!(env!("H2_VERIF_DIR"), "/harness/proto/streams/flow_control.rs"));
+}
